@@ -50,6 +50,7 @@ pub struct Tokinizer<'a> {
     pub language: String,
     pub token_infos: Vec<Rc<TokenInfo>>,
     pub tokens: Vec<Rc<TokenType>>,
+    pub basic: bool,
 }
 
 #[derive(Debug)]
@@ -88,7 +89,8 @@ impl<'a> Tokinizer<'a> {
             session,
             language: session.get_language(),
             token_infos: Vec::new(),
-            tokens: Vec::new()
+            tokens: Vec::new(),
+            basic: false
         }
     }
 
@@ -105,7 +107,8 @@ impl<'a> Tokinizer<'a> {
             session,
             language: session.get_language(),
             token_infos: Vec::new(),
-            tokens: Vec::new()
+            tokens: Vec::new(),
+            basic: false
         };
 
         language_tokinizer(&mut tokinizer);
@@ -140,6 +143,7 @@ impl<'a> Tokinizer<'a> {
     }
 
     pub fn basic_tokinize(&mut self) -> bool {
+        self.basic = true;
         regex_tokinizer(self);
         log::debug!(" > regex_tokinizer");
         alias_tokinizer(self);
